@@ -319,6 +319,18 @@ func runC05(r *core.Run) {
 			return core.Outcome{Class: c.Kind, Nontrivial: c.N >= 2, Evals: 3}
 		})
 
+	firstBytes(r, "newick", func(prefix string) ([]byte, []obsItem, bool, string) {
+		t := defaultNwTree([]int{0})
+		t.Names[0] = core.S(prefix + "n")
+		root := t.build()
+		second := defaultNwTree([]int{1, 0}).build()
+		d1, f1 := writeNewickChecked(root)
+		d2, f2 := writeNewickChecked(second)
+		if f1 != "" || f2 != "" {
+			return nil, nil, true, f1 + f2
+		}
+		return append(append(d1, '\n'), d2...), []obsItem{{Rec: renderNewick(root)}, {Rec: renderNewick(second)}}, true, ""
+	})
 	interleavedReadersFor(r, []string{"newick"})
 	consumerMutatesRecords(r, []string{"newick"})
 	bigFiles(r, "newick", []int{0})
